@@ -37,7 +37,9 @@ LEVEL_NOTE = (
 TECHNIQUE = ("fault injection driven by Hypothesis + exhaustive enumeration "
              "of crash points on a small grid; invariant over the history of "
              "counted repetition ids")
-RULE = ("case = grid + rep_max + skip pattern + clock + sequence of 1..3 "
+RULE = ("case = grid (0..2 unpacked parameters) + rep_max + skip pattern + "
+        "clock + partial results in their own folder or next to the final "
+        "file + sequence of 1..3 "
         "crash points followed by a clean restart; non-trivial = a crash "
         "actually fired after at least one completed save of a partial file "
         "and before completion, or during a save (open/prefix/rename); "
